@@ -251,6 +251,8 @@ def show_named(r):
 
 
 def check_decode(ctx, rep, prop, kind, repo):
+    from .rules_event import check_eq_structural
+    check_eq_structural(ctx, rep, ('KeyCode', 'KeyState', 'KeyEvent', 'Error'))   # what 'the same key' / 'distinct keys' mean
     """C01 (kind='set2') / C02 (kind='set1')."""
     sc, _xl = load_ref()
     readme_drift(rep, repo, sc)
@@ -446,6 +448,8 @@ def brk_of(m, ctx, p, c):
 
 
 def check_xlat(ctx, rep):
+    from .rules_event import check_eq_structural
+    check_eq_structural(ctx, rep, ('KeyCode', 'KeyState', 'KeyEvent', 'Error'))   # what 'the same key' / 'distinct keys' mean
     """C13"""
     sc, xl = load_ref()
     single = set(sc['single_shot'])
@@ -587,6 +591,8 @@ def check_xlat(ctx, rep):
 
 
 def check_pairing(ctx, rep):
+    from .rules_event import check_eq_structural
+    check_eq_structural(ctx, rep, ('KeyCode', 'KeyState', 'KeyEvent', 'Error'))   # what 'the same key' / 'distinct keys' mean
     """C19"""
     sc, _ = load_ref()
     single = set(sc['single_shot'])
